@@ -89,10 +89,16 @@ def reference_W(spec: dict, names: list) -> dict:
     return _in_memory_digests(_writer(spec), names)
 
 
-def load_digests(d: str, names: list) -> dict:
+def load_digests(d: str, names: list, keep: list = None) -> dict:
     from molgri.io import GridReader
     gr = GridReader()
-    return {n: digest_any(getattr(gr, LOAD[n])(os.path.join(d, GRID_FILES[n]))) for n in names}
+    out = {}
+    for n in names:
+        val = getattr(gr, LOAD[n])(os.path.join(d, GRID_FILES[n]))
+        out[n] = digest_any(val)
+        if keep is not None:
+            keep.append((n, val, out[n]))  # the caller goes on holding what it loaded
+    return out
 
 
 # --- energy producer (fake GROMACS / ORCA peer) -----------------------------------------------------------------------
@@ -564,120 +570,185 @@ class PipelineCheck(Check):
                 op["order"] = order
             ops.append(op)
             maybe_rng_fault()
+        twin = None
+        if rng.random() < 0.25:
+            tspec = dict(spec) if rng.random() < 0.4 else gen_grid_spec(rng, 200, allow_f12=False)
+            tes = gen_energy_spec(rng, fmt=es["fmt"])
+            if rng.random() < 0.7:
+                tes["legends"], tes["column"] = list(es["legends"]), es["column"]  # same table layout, other values
+            twin = {"spec": tspec, "energy": tes}
+            tops = []
+            for stage in ("W", "E", "S", "D"):
+                op = {"op": "stage", "stage": stage, "exp": 1, **mode()}
+                if stage == "W":
+                    order = order_names[:]
+                    rng.shuffle(order)
+                    op["order"] = order
+                tops.append(op)
+            # interleave, keeping each experiment's own order
+            merged, a, b = [], list(ops), tops
+            while a or b:
+                if a and (not b or rng.random() < len(a) / (len(a) + len(b))):
+                    merged.append(a.pop(0))
+                else:
+                    merged.append(b.pop(0))
+            ops = merged
         scan = []
         if rng.random() < 0.3:
             scan = [[rng.choice([200.0, 273.0, 350.0]), 10 ** rng.uniform(-3, 3)] for _ in range(rng.choice([1, 2]))]
         return {"kind": "pipeline", "spec": spec, "T": T, "D": Dconst, "scan": scan, "energy": es, "solver": solver,
-                "stale": stale,
+                "stale": stale, "twin": twin,
                 "rng_init": rng.randrange(2 ** 32), "dense_cap": 700 if tier == "quick" else 1600,
                 "cold_reference": rng.random() < 0.15, "ops": ops}
 
     # ------------------------------------------------------------------ execution
     def execute(self, sc: dict) -> dict:
-        spec = sc["spec"]
         log = EventLog()
         faults, probes = {}, {}
+        # experiment 0 is the main one; an optional twin (experiment 1) is another experiment of the same project whose
+        # stages the scheduler interleaves with it - same file names, its own directory, its own grid and energies
+        exps = [sc]
+        if sc.get("twin"):
+            tw = dict(sc)
+            tw.update(spec=sc["twin"]["spec"], energy=sc["twin"]["energy"], stale=None, scan=[])
+            tw["solver"] = dict(sc["solver"])
+            ntw = tw["spec"]["n_b"] * tw["spec"]["n_o"] * tw["spec"]["n_t"]
+            tw["solver"]["k"] = min(sc["solver"]["k"], ntw - 2)
+            exps.append(tw)
+            faults["second_experiment_interleaved"] = 1
+        spec = sc["spec"]
         sig = [spec["b"].split("_")[0] if "_" in spec["b"] else "defb", spec["canon_o"].split("_")[0], spec["n_b"],
                spec["n_o"], spec["n_t"], spec["cartesian"], sc["solver"]["which"], sc["solver"]["sigma"] is not None]
-        is_f12 = spec["cartesian"] and spec["canon_o"] in F12_OPEN_CELL_GRIDS
-        f12_key = f"cartesian-open-cells:{spec['canon_o']}" if is_f12 else None
+        deps = {"W": [], "E": ["W"], "S": ["W", "E"], "D": ["S"]}
+        old_cwd = os.getcwd()
         with World(rng_init=sc.get("rng_init", 0xC0FFEE)) as world:
-            d = world.make_scratch()
-            complete = {"W": False, "E": False, "S": False, "D": False}
-            deps = {"W": [], "E": ["W"], "S": ["W", "E"], "D": ["S"]}
-            executions = 0
-            last_fault_exec = 0
-            cold_stages = 0
-            if sc.get("stale"):
-                st = sc["stale"]
-                try:
-                    run_stage("W", {"d": d, "spec": lib_spec(st), "order": list(GRID_FILES)}, "warm")
-                    nst = st["n_b"] * st["n_o"] * st["n_t"]
-                    # leftovers of the later stages of the earlier experiment
-                    for fn, arr in (("eigenvalues_0.npy", np.zeros(3)), ("eigenvectors_0.npy", np.zeros((nst, 3)))):
-                        np.save(os.path.join(d, fn), arr)
-                    shutil.copy(os.path.join(d, GRID_FILES["adjacency_array"]), os.path.join(d, "rate_matrix.npz"))
-                    faults["stale_dir"] = 1
-                    if nst == spec["n_b"] * spec["n_o"] * spec["n_t"]:
-                        probes["stale_dir_same_cell_count"] = 1
-                    log.add("disk", "stale_dir", [st["b"], st["o"], st["t"]])
-                except (StageFailed, Crash):
-                    pass
-            for step, op in enumerate(sc["ops"]):
-                if op["op"] == "fault":
-                    RngSeam.apply(op["fault"])
-                    faults[op["fault"]["kind"]] = faults.get(op["fault"]["kind"], 0) + 1
-                    log.add("sim", op["fault"]["kind"])
-                    sig.append(("f", op["fault"]["kind"]))
-                    continue
-                stage = op["stage"]
-                if not all(complete[x] for x in deps[stage]):
-                    probes["stage_skipped_inputs_incomplete"] = probes.get("stage_skipped_inputs_incomplete", 0) + 1
-                    continue
-                if complete[stage]:
-                    # the workflow engine does not re-run a stage whose outputs are complete
-                    probes["stage_skipped_already_complete"] = probes.get("stage_skipped_already_complete", 0) + 1
-                    continue
-                args = {"d": d}
-                crashing = False
-                if stage == "W":
-                    args.update(spec=lib_spec(spec), order=op["order"], crash_after=op.get("crash_after"),
-                                disk_fault=op.get("disk_fault"))
-                    crashing = op.get("crash_after") is not None
-                elif stage == "E":
-                    args.update(es=sc["energy"], crash=op.get("crash"))
-                    crashing = op.get("crash") is not None
-                elif stage == "S":
-                    args.update(p={"energy_fmt": sc["energy"]["fmt"], "energy_type": sc["energy"]["column"],
-                                   "D": sc["D"], "T": sc["T"], "scan": sc.get("scan", [])}, crash=op.get("crash"))
-                    if sc.get("scan"):
-                        probes["rate_matrix_scan_on_loaded_geometry"] = 1
-                    crashing = op.get("crash") is not None
-                else:
-                    args.update(s=sc["solver"], crash=op.get("crash"))
-                    crashing = op.get("crash") is not None
-                executions += 1
-                if op.get("mode") == "cold":
-                    cold_stages += 1
-                    faults["cold_stage_hashseed"] = faults.get("cold_stage_hashseed", 0) + 1
-                try:
-                    res = run_stage(stage, args, op.get("mode", "warm"), op.get("hashseed", 0), op.get("rng_init"))
-                    complete[stage] = True
-                    log.add(stage, "done", op.get("mode", "warm"))
-                    sig.append((stage, op.get("mode", "warm"), "ok"))
-                    if stage == "D" and res.get("notes"):
-                        probes["solver_no_convergence"] = probes.get("solver_no_convergence", 0) + len(res["notes"])
-                except Crash as c:
-                    complete[stage] = False
-                    last_fault_exec = executions
-                    faults["crash_stage"] = faults.get("crash_stage", 0) + 1
-                    fk = (op.get("disk_fault") or op.get("crash") or {}).get("kind")
-                    if fk in ("torn_write", "lost_write"):
-                        faults[fk] = faults.get(fk, 0) + 1
-                    log.add(stage, "crash", str(c))
-                    sig.append((stage, op.get("mode", "warm"), "crash", fk))
-                    if not crashing:
-                        raise HarnessError("crash without a scheduled crash")
-                except StageFailed as e:
-                    if is_f12:
-                        v = Violation("pipeline-incomplete", f"stage {stage} cannot complete in Cartesian mode on "
-                                      f"direction grid {spec['canon_o']} (open Voronoi cells): {e.text}", key=f12_key)
-                        raise v
-                    raise Violation("pipeline-incomplete", f"stage {stage} ({op.get('mode', 'warm')}) failed inside "
-                                                           f"C14's domain: {e.text}")
-            if sc["solver"]["k"] < 1:
-                complete["D"] = True
-                probes["decomposition_not_scheduled_tiny_grid"] = 1
-            if not all(complete.values()):
-                # a shrunk schedule may stop early: nothing to judge
-                return {"events": log.n, "fingerprint": log.digest(), "faults": faults, "probes": probes, "sig": None,
-                        "nontrivial": False}
-            # bounded liveness: once faults stop, every remaining stage ran exactly once
-            if executions - last_fault_exec > 4:
-                raise Violation("liveness", f"{executions - last_fault_exec} stage executions after the last fault")
-            self._oracles(sc, d, log, probes, f12_key)
-            if sc["solver"]["sigma"] is None:
-                probes["solver_no_shift"] = 1
+            project = world.make_scratch()
+            # the stages run inside a molgri project directory (the folder layout of molgri.paths), as Snakemake does
+            try:
+                import molgri.paths as mp_
+                for name in dir(mp_):
+                    if name.startswith("PATH_") and isinstance(getattr(mp_, name), str):
+                        os.makedirs(os.path.join(project, getattr(mp_, name)), exist_ok=True)
+            except Exception:  # noqa: BLE001
+                pass
+            os.chdir(project)
+            try:
+                st = []
+                for e, esc in enumerate(exps):
+                    d = os.path.join(project, "experiments", f"sqra_{'AB'[e]}", "grid")
+                    os.makedirs(d, exist_ok=True)
+                    sp = esc["spec"]
+                    is_f12 = sp["cartesian"] and sp["canon_o"] in F12_OPEN_CELL_GRIDS
+                    st.append({"d": d, "sc": esc, "complete": {"W": False, "E": False, "S": False, "D": False},
+                               "executions": 0, "last_fault_exec": 0, "is_f12": is_f12,
+                               "f12_key": f"cartesian-open-cells:{sp['canon_o']}" if is_f12 else None})
+                cold_stages = 0
+                d0 = st[0]["d"]
+                if sc.get("stale"):
+                    stl = sc["stale"]
+                    try:
+                        run_stage("W", {"d": d0, "spec": lib_spec(stl), "order": list(GRID_FILES)}, "warm")
+                        nst = stl["n_b"] * stl["n_o"] * stl["n_t"]
+                        # leftovers of the later stages of the earlier experiment
+                        for fn, arr in (("eigenvalues_0.npy", np.zeros(3)), ("eigenvectors_0.npy", np.zeros((nst, 3)))):
+                            np.save(os.path.join(d0, fn), arr)
+                        shutil.copy(os.path.join(d0, GRID_FILES["adjacency_array"]), os.path.join(d0, "rate_matrix.npz"))
+                        faults["stale_dir"] = 1
+                        if nst == spec["n_b"] * spec["n_o"] * spec["n_t"]:
+                            probes["stale_dir_same_cell_count"] = 1
+                        log.add("disk", "stale_dir", [stl["b"], stl["o"], stl["t"]])
+                    except (StageFailed, Crash):
+                        pass
+                for step, op in enumerate(sc["ops"]):
+                    if op["op"] == "fault":
+                        RngSeam.apply(op["fault"])
+                        faults[op["fault"]["kind"]] = faults.get(op["fault"]["kind"], 0) + 1
+                        log.add("sim", op["fault"]["kind"])
+                        sig.append(("f", op["fault"]["kind"]))
+                        continue
+                    e = op.get("exp", 0)
+                    if e >= len(st):
+                        continue
+                    x = st[e]
+                    esc, d, complete = x["sc"], x["d"], x["complete"]
+                    stage = op["stage"]
+                    if esc["solver"]["k"] < 1 and stage == "D":
+                        continue
+                    if not all(complete[y] for y in deps[stage]):
+                        probes["stage_skipped_inputs_incomplete"] = probes.get("stage_skipped_inputs_incomplete", 0) + 1
+                        continue
+                    if complete[stage]:
+                        # the workflow engine does not re-run a stage whose outputs are complete
+                        probes["stage_skipped_already_complete"] = probes.get("stage_skipped_already_complete", 0) + 1
+                        continue
+                    args = {"d": d}
+                    if stage == "W":
+                        args.update(spec=lib_spec(esc["spec"]), order=op["order"], crash_after=op.get("crash_after"),
+                                    disk_fault=op.get("disk_fault"))
+                        crashing = op.get("crash_after") is not None
+                    elif stage == "E":
+                        args.update(es=esc["energy"], crash=op.get("crash"))
+                        crashing = op.get("crash") is not None
+                    elif stage == "S":
+                        args.update(p={"energy_fmt": esc["energy"]["fmt"], "energy_type": esc["energy"]["column"],
+                                       "D": esc["D"], "T": esc["T"], "scan": esc.get("scan", [])}, crash=op.get("crash"))
+                        if esc.get("scan"):
+                            probes["rate_matrix_scan_on_loaded_geometry"] = 1
+                        crashing = op.get("crash") is not None
+                    else:
+                        args.update(s=esc["solver"], crash=op.get("crash"))
+                        crashing = op.get("crash") is not None
+                    x["executions"] += 1
+                    if op.get("mode") == "cold":
+                        cold_stages += 1
+                        faults["cold_stage_hashseed"] = faults.get("cold_stage_hashseed", 0) + 1
+                    try:
+                        res = run_stage(stage, args, op.get("mode", "warm"), op.get("hashseed", 0), op.get("rng_init"))
+                        complete[stage] = True
+                        log.add(f"{stage}{e}", "done", op.get("mode", "warm"))
+                        sig.append((stage, e, op.get("mode", "warm"), "ok"))
+                        if stage == "D" and res.get("notes"):
+                            probes["solver_no_convergence"] = probes.get("solver_no_convergence", 0) + len(res["notes"])
+                    except Crash as c:
+                        complete[stage] = False
+                        x["last_fault_exec"] = x["executions"]
+                        faults["crash_stage"] = faults.get("crash_stage", 0) + 1
+                        fk = (op.get("disk_fault") or op.get("crash") or {}).get("kind")
+                        if fk in ("torn_write", "lost_write"):
+                            faults[fk] = faults.get(fk, 0) + 1
+                        log.add(f"{stage}{e}", "crash", str(c))
+                        sig.append((stage, e, op.get("mode", "warm"), "crash", fk))
+                        if not crashing:
+                            raise HarnessError("crash without a scheduled crash")
+                    except StageFailed as err:
+                        if x["is_f12"]:
+                            raise Violation("pipeline-incomplete", f"stage {stage} cannot complete in Cartesian mode on "
+                                            f"direction grid {esc['spec']['canon_o']} (open Voronoi cells): {err.text}",
+                                            key=x["f12_key"])
+                        raise Violation("pipeline-incomplete", f"stage {stage} ({op.get('mode', 'warm')}"
+                                        f"{', second experiment' if e else ''}) failed inside C14's domain: {err.text}")
+                judged = 0
+                for e, x in enumerate(st):
+                    if x["sc"]["solver"]["k"] < 1:
+                        x["complete"]["D"] = True
+                        probes["decomposition_not_scheduled_tiny_grid"] = 1
+                    if not all(x["complete"].values()):
+                        continue  # a shrunk schedule may stop early: nothing to judge for this experiment
+                    # bounded liveness: once faults stop, every remaining stage ran exactly once
+                    if x["executions"] - x["last_fault_exec"] > 4:
+                        raise Violation("liveness", f"{x['executions'] - x['last_fault_exec']} stage executions after "
+                                                    f"the last fault")
+                    self._oracles(x["sc"], x["d"], log, probes, x["f12_key"])
+                    judged += 1
+                if judged == 0:
+                    return {"events": log.n, "fingerprint": log.digest(), "faults": faults, "probes": probes,
+                            "sig": None, "nontrivial": False}
+                if judged == 2:
+                    probes["two_experiments_judged"] = 1
+                if sc["solver"]["sigma"] is None:
+                    probes["solver_no_shift"] = 1
+            finally:
+                os.chdir(old_cwd)
         nontrivial = sum(faults.values()) >= 1 or cold_stages >= 1
         return {"events": log.n, "fingerprint": log.digest(), "faults": faults, "probes": probes, "sig": repr(sig),
                 "nontrivial": nontrivial, "inter": repr(sig[8:])}
@@ -832,6 +903,11 @@ class PipelineCheck(Check):
             c = copy.deepcopy(sc)
             c["stale"] = None
             yield c
+        if sc.get("twin"):
+            c = copy.deepcopy(sc)
+            c["twin"] = None
+            c["ops"] = [o for o in c["ops"] if o.get("exp", 0) == 0]
+            yield c
         for i, op in enumerate(sc["ops"]):
             if op.get("mode") == "cold":
                 c = copy.deepcopy(sc)
@@ -975,8 +1051,16 @@ class PersistenceCheck(Check):
                         "n_b": 1, "n_o": 1, "n_t": 1, "canon_o": "ico_1", "single": True}
             return gen_grid_spec(rng, 160 if tier == "quick" else 500, allow_f12=False, cart_p=0.35)
         ops = []
-        n_specs = rng.choice([1, 1, 2])
+        n_specs = rng.choice([1, 1, 2, 2, 3])
         specs = [one_spec() for _ in range(n_specs)]
+        if n_specs >= 2 and rng.random() < 0.5 and not specs[0].get("single"):
+            # the directory is re-used for the SAME grid names with another position mode or metric factor
+            tw = dict(specs[0])
+            if tw["n_o"] >= 4 and rng.random() < 0.6:
+                tw["cartesian"] = not tw["cartesian"]
+            else:
+                tw["factor"] = {2: 3.3, 1: 2, 0.5: 1, 3.3: 0.5}[tw["factor"]]
+            specs[1] = tw
         for si, sp in enumerate(specs):
             names = [n for n in GRID_FILES if not (sp.get("single") and n == "distances_array")]
             order = names[:]
@@ -1025,6 +1109,7 @@ class PersistenceCheck(Check):
         current = None  # (spec, names, in-memory digests) of the last completed write
         writes = 0
         compared = 0
+        held = []  # (name, loaded object, digest at load time): what an earlier reader still holds
         with World(rng_init=sc.get("rng_init", 0xC0FFEE)) as world:
             d = world.make_scratch()
             for step, op in enumerate(sc["ops"]):
@@ -1059,8 +1144,10 @@ class PersistenceCheck(Check):
                         continue  # a reader never starts on an incomplete file set
                     sp, names, mem = current
                     try:
-                        got = run_stage("load_digests", {"d": d, "names": names}, op.get("mode", "warm"),
-                                        op.get("hashseed", 0))
+                        largs = {"d": d, "names": names}
+                        if op.get("mode", "warm") == "warm":
+                            largs["keep"] = held
+                        got = run_stage("load_digests", largs, op.get("mode", "warm"), op.get("hashseed", 0))
                     except StageFailed as e:
                         raise Violation(f"exception:{e.etype}", f"step {step}: grid reader failed: {e.text}")
                     if op.get("mode") == "cold":
@@ -1074,6 +1161,14 @@ class PersistenceCheck(Check):
                                                               f"(spec {sp['b']}/{sp['o']}/{sp['t']}, cartesian={sp['cartesian']})")
                     log.add("R", "read", op.get("mode", "warm"), got)
                     sig.append(("r", op.get("mode", "warm")))
+            # what was read back must stay what it was: a value that silently changes when the directory is re-used
+            # later (a lazily loaded or memory-mapped file) was not "read back identically"
+            for nm, val, dg in held:
+                if digest_any(val) != dg:
+                    raise Violation("loaded-value-unstable", f"{GRID_FILES[nm]}: the object a reader loaded earlier "
+                                                             f"changed its content after later writes into the directory")
+            if held and writes >= 2:
+                probes["held_values_rechecked_after_overwrite"] = 1
         nontrivial = compared > 0 and (writes >= 2 or sum(faults.values()) >= 1)
         return {"events": log.n, "fingerprint": log.digest(), "faults": faults, "probes": probes, "sig": repr(sig),
                 "nontrivial": nontrivial, "inter": repr(sig)}
